@@ -99,13 +99,13 @@ mut("M26", "conn.go", """		c.writeResponse(502, EnhancedCode{5, 5, 1}, "MAIL not
 		return
 	}""", """		c.writeResponse(502, EnhancedCode{5, 5, 1}, "MAIL not allowed during message transfer")
 	}""", ["C03", "C04"], "handleMail", note="MAIL during BDAT: 502 written but processing continues")
-mut("M64", "conn.go", """	c.writeResponse(250, EnhancedCode{2, 0, 0}, fmt.Sprintf("Roger, accepting mail from <%v>", from))
+mut("M64", "conn.go", """	c.writeResponse(250, EnhancedCode{2, 0, 0}, fmt.Sprintf("Roger, accepting mail from <%v>", replyText(from)))
 	c.fromReceived = true""", """	c.fromReceived = true
 	if err := c.Session().Mail(from, opts); err != nil {
 		c.writeError(451, EnhancedCode{4, 0, 0}, err)
 		return
 	}
-	c.writeResponse(250, EnhancedCode{2, 0, 0}, fmt.Sprintf("Roger, accepting mail from <%v>", from))""", ["C03"], "handleMail", note="second Mail callback and fromReceived set before the backend accepted")
+	c.writeResponse(250, EnhancedCode{2, 0, 0}, fmt.Sprintf("Roger, accepting mail from <%v>", replyText(from)))""", ["C03"], "handleMail", note="second Mail callback and fromReceived set before the backend accepted")
 mut("M08", "conn.go", "	c.helo = \"\"\n	c.didAuth = false\n	c.reset()", "	c.helo = \"\"\n	c.reset()", ["C09", "C10"], "upgrade-forgets-plaintext-state", note="STARTTLS keeps the authentication state")
 mut("M41", "conn.go", """	if _, isTLS := c.TLSConnectionState(); isTLS {
 		c.writeResponse(502, EnhancedCode{5, 5, 1}, "Already running in TLS")
@@ -174,7 +174,7 @@ mut("M70", "conn.go", """	if err == nil && n != int64(size) {
 mut("M71", "conn.go", "		c.writeResponse(502, EnhancedCode{5, 5, 1}, \"Missing RCPT TO command.\")\n		c.discardChunk(size)\n		return", "		c.writeResponse(502, EnhancedCode{5, 5, 1}, \"Missing RCPT TO command.\")\n		return", ["C05"], "handleBdat/post:framing", note="regression of fix c40235b")
 mut("M72", "conn.go", "		err := c.Session().Data(r)\n		r.limited = false\n		io.Copy(ioutil.Discard, r) // Make sure all the data has been consumed\n		for _, rcpt := range c.recipients {", "		err := c.Session().Data(r)\n		io.Copy(ioutil.Discard, r) // Make sure all the data has been consumed\n		for _, rcpt := range c.recipients {", ["C02"], "handleDataLMTP/post:resync", note="regression of fix 41a5def (fallback path)")
 mut("M73", "conn.go", "			status.fillRemaining(lmtpSession.LMTPData(r, status))\n			r.limited = false\n", "			status.fillRemaining(lmtpSession.LMTPData(r, status))\n", ["C02"], "drained", note="regression of fix 41a5def (goroutine path)")
-mut("M21c", "conn.go", "				code, enchCode, msg := dataErrorToStatus(<-c.bdatStatus.status[i])\n				c.writeResponse(code, enchCode, \"<\"+rcpt+\"> \"+msg)", "				code, enchCode, msg := dataErrorToStatus(<-c.bdatStatus.status[len(c.recipients)-1-i])\n				c.writeResponse(code, enchCode, \"<\"+rcpt+\"> \"+msg)", ["C13"], "", note="BDAT LMTP emission loop receives in reverse order")
+mut("M21c", "conn.go", "				code, enchCode, msg := dataErrorToStatus(<-c.bdatStatus.status[i])\n				c.writeResponse(code, enchCode, \"<\"+replyText(rcpt)+\"> \"+msg)", "				code, enchCode, msg := dataErrorToStatus(<-c.bdatStatus.status[len(c.recipients)-1-i])\n				c.writeResponse(code, enchCode, \"<\"+replyText(rcpt)+\"> \"+msg)", ["C13"], "", note="BDAT LMTP emission loop receives in reverse order")
 mut("P9r", "conn.go", """			if ch < 0x10 {
 				// hexchar is "+" followed by exactly two hex digits
 				out.WriteRune('0')
@@ -226,6 +226,10 @@ mut("M88", "data.go", "	r.r.Discard(len(rest))\n	r.state = stateEOF", "	r.state 
 mut("M89", "data.go", "	case stateEOF:\n		return true\n	default:", "	default:", ["C06", "C02"], "", note="a read after the end of an exactly-N message reports too large")
 mut("P11r", "conn.go", "		if enhCode == NoEnhancedCode {\n			c.text.PrintfLine(\"%d-%v\", code, text[i])\n		} else {\n			c.text.PrintfLine(\"%d-%v.%v.%v %v\", code, enhCode[0], enhCode[1], enhCode[2], text[i])\n		}", "		c.text.PrintfLine(\"%d-%v\", code, text[i])", ["C17"], "enhanced-code-on-every-line", note="regression of the multi-line enhanced code fix")
 mut("M103", "conn.go", "			c.text.PrintfLine(\"%d-%v.%v.%v %v\", code, enhCode[0], enhCode[1], enhCode[2], text[i])", "			c.text.PrintfLine(\"%d-%v.%v.%v %v\", code, enhCode[0], enhCode[1], enhCode[1], text[i])", ["C17"], "continuation-lines-carry-the-same-enhanced-code", note="continuation lines repeat the subject digit as detail")
+mut("P8r", "conn.go", "fmt.Sprintf(\"Roger, accepting mail from <%v>\", replyText(from))", "fmt.Sprintf(\"Roger, accepting mail from <%v>\", from)", ["C04"], "reply-text-well-formed", note="regression of the echo fix at one site (reverse-path quoted raw)")
+mut("P8r2", "conn.go", "	args := []string{\"Hello \" + replyText(domain)}", "	args := []string{\"Hello \" + domain}", ["C04"], "reply-text-well-formed", note="regression of the echo fix in the EHLO reply")
+mut("M105", "conn.go", "				if c := b[i]; (c < ' ' && c != '\\t') || c == 0x7f {\n					b[i] = '?'", "				if c := b[i]; c < ' ' && c != '\\t' {\n					b[i] = '?'", ["C04"], "replyText/", note="replyText lets DEL through after the first bad octet")
+mut("M106", "conn.go", "			b := []byte(s)\n			for ; i < len(b); i++ {", "			b := []byte(s)\n			for i++; i < len(b); i++ {", ["C04"], "replyText/", note="replyText skips the first bad octet")
 # ---------------------------------------------------------------- client.go
 mut("M104", "client.go", "		if resp == nil {\n			break\n		}\n		resp64 = make([]byte, encoding.EncodedLen(len(resp)))", "		if len(resp) == 0 {\n			break\n		}\n		resp64 = make([]byte, encoding.EncodedLen(len(resp)))", ["C09"], "success-means-the-server-said-235", note="client stops the AUTH exchange on an empty (non-nil) response and reports success")
 mut("M30", "client.go", "	if d.closed {\n		return fmt.Errorf(\"smtp: data writer closed twice\")\n	}\n	d.closed = true\n", "	if d.closed {\n		return fmt.Errorf(\"smtp: data writer closed twice\")\n	}\n", ["C16"], "always-closed-afterwards", note="dataCloser never marked closed (also regression of fix 755bba6)")
